@@ -22,8 +22,19 @@ let step_oracles (bump : str -> unit) (pre : vt) (f : func) (post : vt) : (str *
    | Decset _ when pre.vterm.active = Primary && post.vterm.active = Alternate ->
        chk "C08" "alt_entry_blank_pen" (holds_C16 pre f post)
    | _ -> ());
+  (* C06: "DECSTBM takes effect only for 1 <= top < bottom <= rows and otherwise leaves the margins as they were"
+     (the margins clause of spec_cursor) *)
+  (match f with Decstbm (_, _) -> chk "C06" "decstbm_region" (holds_C05 pre f post) | _ -> ());
+  (* C08: the cells REP writes carry the current pen (the pen clause of the REP specification) *)
+  (match f with Rep _ -> chk "C08" "rep_pen" (holds_C04 pre f post) | _ -> ());
+  (* C16: a soft reset while the alternate screen is showing must not touch the parked primary's saved cursor
+     (the one ?1049l restores) - the other-screen clause of C17's DECSTR statement *)
+  (match f with
+   | Decstr when pre.vterm.active = Alternate -> chk "C16" "decstr_parked_ctx" (holds_C17 pre f post)
+   | _ -> ());
   chk "C16" "alt_resized" (holds_C16_resized pre f post);
   chk "C17" "saved" (holds_C17 pre f post);
+  chk "C17" "per_screen_contexts" (holds_C17_switch pre f post);
   chk "C18" "tabs" (holds_C18 pre f post);
   (match f with
    | Ht | Cht _ | Cbt _ -> chk "C18" "tab_moves" (holds_C05 pre f post)   (* HT/CHT/CBT go to the n-th next / previous stop *)
